@@ -1063,7 +1063,12 @@ def b_reversed(it, args, kw, node):
     items = it.concrete_items(args[0])
     if items is not None:
         return MList(list(reversed(items)))
-    raise Unsupported('reversed of symbolic sequence')
+    seq = it.to_seq(args[0])
+    if len(seq.nodes) == 1 and isinstance(seq.nodes[0], Loop):
+        n = seq.nodes[0]
+        return Seq([Loop(n.binders, n.guard, n.kids, n.order, n.unordered, n.src, not n.reverse)],
+                   label='reversed')
+    raise Unsupported('reversed of a composite symbolic sequence')
 
 
 def b_any(it, args, kw, node):
@@ -1865,6 +1870,9 @@ class SplitResult(SeqBase):
 
     def nonempty(self):
         return self.len_f(self.s.z) > 0
+
+    def as_seq(self):
+        return self.as_slist().as_seq()
 
     def leaves(self):
         return self.as_slist().as_seq().leaves()
